@@ -21,6 +21,7 @@ FAIL_PATTERNS = [
     ("invariant-entry", re.compile(r"invariant not satisfied before loop")),
     ("invariant-preserved", re.compile(r"invariant not satisfied at end of loop body")),
     ("invariant-break", re.compile(r"invariant not satisfied at (?:a )?break|loop ensures not satisfied")),
+    ("invariant", re.compile(r"invariant not satisfied")),
     ("assertion", re.compile(r"assertion failed|assert(?:ion)? .*failed")),
     ("overflow", re.compile(r"possible arithmetic underflow/overflow|possible bit shift underflow/overflow")),
     ("div-by-zero", re.compile(r"possible division by zero")),
